@@ -25,6 +25,7 @@ package appencryption
 //@   ensures mk_calls == old(mk_calls) && lcalls == old(lcalls) && refused == old(refused)
 //@   ensures err != nil ==> len(result) == 0
 //@   ensures result == nil || fresh(result)
+//@   ghost ensures result != nil ==> plain(arr(result))
 
 //@ iface AEAD.Encrypt
 //@   names data, key
@@ -890,3 +891,15 @@ package appencryption
 //@   safety C07
 //@ func (*keyCache).GetOrLoad
 //@   ensures [C20,C05:a-loaded-entry-is-stamped-with-the-time-of-the-load] err == nil && lcalls == old(lcalls) + 1 ==> cval(c.keys)[ck(id.ID, result.CryptoKey.created)].loadedAt >= old(now())
+
+// ---- C03, log lines and error texts: the functions that have key plaintext in hand are swept for formatting calls
+// (fmt / errors / log) that are handed a byte slice, or a struct with a byte-slice field, known to be key material ----
+//@ func decryptRow$1
+//@   facet C03
+//@   requires [C03:given-the-intermediate-key-s-plaintext] plain(arr(bytes))
+//@ func (*envelopeEncryption).intermediateKeyFromEKR
+//@   facet C03
+//@ func (*envelopeEncryption).systemKeyFromEKR
+//@   facet C03
+//@ func (*envelopeEncryption).DecryptDataRowRecord
+//@   facet C03
